@@ -11,6 +11,7 @@ import FemtoVerif.Driver.C16
 import FemtoVerif.Driver.C19
 import FemtoVerif.Driver.C18
 import FemtoVerif.Driver.C05
+import FemtoVerif.Driver.C07
 open Lean
 
 namespace Femto.Driver
@@ -41,6 +42,7 @@ def dispatch (op : String) (j : Json) : Except String Json :=
   | "c19.filter" => C19.filter j
   | "c18.table" => C18.table j
   | "c05.dig" => C05.dig j
+  | "c07.toolpath" => C07.toolpath j
   | _ => .error s!"unknown op {op}"
 
 def handleLine (line : String) : String :=
